@@ -73,6 +73,7 @@ type dirState struct {
 	cut      bool // pending data is discarded (harness cut the stream)
 	rerr     error
 	rerrAt   int64
+	head     []byte // first bytes of the stream (up to 64)
 }
 
 type endState struct {
@@ -265,6 +266,13 @@ func (c *Conn) Write(b []byte) (int, error) {
 	n.Writes = append(n.Writes, WriteRec{Side: c.s, N: k, Off: d.written, Bracket: e.bracket, Seq: n.seq})
 	d.pending = append(d.pending, b[:k]...)
 	d.written += int64(k)
+	if len(d.head) < 64 {
+		h := 64 - len(d.head)
+		if h > k {
+			h = k
+		}
+		d.head = append(d.head, b[:h]...)
+	}
 	if n.free {
 		n.releaseFree(c.s)
 	}
@@ -422,6 +430,13 @@ func (n *Net) Inject(s Side, b []byte) {
 	if n.free {
 		n.releaseFree(s)
 	}
+}
+
+// Head returns the first (up to 64) bytes side s has written.
+func (n *Net) Head(s Side) []byte {
+	n.mu.Lock()
+	defer n.mu.Unlock()
+	return append([]byte(nil), n.d[s].head...)
 }
 
 // Take removes and returns everything pending from side s, as if the harness
